@@ -30,11 +30,11 @@ let rec gty_of (e : sexp) : M.gty =
   match e with
   | Lst [A "param"; A p] -> M.gParam (coq_string p)
   | Lst (A "path" :: q :: A qpos :: A colon :: segs) ->
-      M.GPath (ogty_of q, nat_of_int (int_of_string qpos), colon = "1", segs_of segs)
+      M.GPath (ogty_of q, nat_of_int (small_nat_of_string qpos), bool_of colon, segs_of segs)
   | Lst [A "wrap"; w; t] -> M.GWrap (wrap_of w, gty_of t)
   | Lst (A "tuple" :: ts) -> M.GTuple (tys_of ts)
   | Lst [A "fn"; Lst ins; out] -> M.GFn (tys_of ins, ogty_of out)
-  | Lst (A "bounds" :: A d :: bs) -> M.GBounds (d = "1", bounds_of_sexp bs)
+  | Lst (A "bounds" :: A d :: bs) -> M.GBounds (bool_of d, bounds_of_sexp bs)
   | Lst (A "macro" :: A n :: args) -> M.GMacro (coq_string n, L.map coq_string (atoms args))
   | Lst [A "other"; A s] -> M.GOther (coq_string s)
   | _ -> failwith "gty syntax"
@@ -43,8 +43,8 @@ and tys_of = function [] -> M.TNil | t :: r -> M.TCons (gty_of t, tys_of r)
 and wrap_of = function
   | Lst [A "array"; A n] -> M.GWArray (coq_string n)
   | A "slice" -> M.GWSlice
-  | Lst [A "ptr"; A m] -> M.GWPtr (m = "1")
-  | Lst [A "ref"; A lt; A m] -> M.GWRef (coq_string (if lt = "-" then "" else lt), m = "1")
+  | Lst [A "ptr"; A m] -> M.GWPtr (bool_of m)
+  | Lst [A "ref"; A lt; A m] -> M.GWRef (coq_string (if lt = "-" then "" else lt), bool_of m)
   | A "paren" -> M.GWParen
   | A "group" -> M.GWGroup
   | _ -> failwith "wrap syntax"
@@ -65,7 +65,7 @@ and arglist_of = function
   | _ -> failwith "generic argument syntax"
 and bounds_of_sexp = function
   | [] -> M.BNil
-  | Lst (A "trait" :: A colon :: segs) :: r -> M.BTrait (colon = "1", segs_of segs, bounds_of_sexp r)
+  | Lst (A "trait" :: A colon :: segs) :: r -> M.BTrait (bool_of colon, segs_of segs, bounds_of_sexp r)
   | Lst [A "other"; A s] :: r -> M.BOther (coq_string s, bounds_of_sexp r)
   | _ -> failwith "bound syntax"
 
@@ -84,7 +84,7 @@ let opt_params = function
   | _ -> failwith "schema params syntax"
 let gfield_of = function
   | Lst [A "gfield"; A name; A skip; bs; bd; sp; t] ->
-      { M.gf_name = coq_string name; M.gf_skip = (skip = "1"); M.gf_bound_ser = opt_preds bs; M.gf_bound_de = opt_preds bd;
+      { M.gf_name = coq_string name; M.gf_skip = (bool_of skip); M.gf_bound_ser = opt_preds bs; M.gf_bound_de = opt_preds bd;
         M.gf_schema_params = opt_params sp; M.gf_ty = gty_of t }
   | _ -> failwith "gfield syntax"
 let gparam_of = function
@@ -135,9 +135,7 @@ let () =
         let variants = match it.M.gi_body with M.GEnum vs -> vs | M.GStruct _ -> [] in
         let one v =
           let inner = M.inner_struct it v in
-          let kept = M.type_params inner.M.gi_params in
-          let scope = L.for_all (fun p ->
-                        L.for_all (fun f -> not (M.uses p f.M.gf_ty) || L.mem p kept) v.M.gv_fields) tps in
+          let scope = M.inner_scope_ok it v in       (* extracted: GenericsSchema.inner_scope_ok *)
           S.concat "|" [ ocaml_string v.M.gv_name; S.concat "," (L.map param_name inner.M.gi_params);
                          S.concat ";" (L.map (fun p -> ocaml_string (M.render_pred p)) inner.M.gi_where);
                          "scope:" ^ bool_s scope;
